@@ -40,6 +40,8 @@
 #include "API/SPDE.hpp"
 #include "API/SPDEParam.hpp"
 #include "LinearOp/MatrixSquareSymmetricSim.hpp"
+#include "Matrix/MatrixSparse.hpp"
+#include "Matrix/NF_Triplet.hpp"
 #include "Matrix/MatrixSquareSymmetric.hpp"
 #include "Space/ASpaceObject.hpp"
 #include "Space/SpacePoint.hpp"
@@ -280,7 +282,7 @@ static std::vector<double> genAnchors(int ndim, int K, double L, double centre)
     {
       int id = cell % m;
       cell /= m;
-      a.push_back(centre + L * ((id + 0.5 + G::r(-30, 30, 100)) / m - 0.5));
+      a.push_back(centre + L * ((id + 0.5 + G::i(-30, 30) / 100.) / m - 0.5));
     }
   }
   return a;
@@ -491,7 +493,9 @@ static std::string simulateOnce(const SimCase& c, const Probes& P0, int seed, st
       ctx.at("simulateSPDE");
       SPDEParam par(c.nb, c.nb, c.border);
       law_set_random_seed(seed); // simulateSPDE has no seed argument
-      err = simulateSPDE(nullptr, db.get(), model.get(), nullptr, c.nbsimu, nullptr, c.opt, par);
+      // the value returned is the rank of the first new column (not the documented error code): success is judged
+      // on the delivered columns
+      (void)simulateSPDE(nullptr, db.get(), model.get(), nullptr, c.nbsimu, nullptr, c.opt, par);
       break;
     }
   }
@@ -629,25 +633,6 @@ static void runSim(const SimCase& c, Ctx& ctx)
     if (dev > 6. * s.sd) neededB = true;
     return dev > 6. * s.sd + b * s.scale;
   };
-  // 2. variances, 3. cross-variable covariance at one point
-  for (int pass = 0; pass < 2; pass++)
-    for (auto& pr : P.pairs)
-    {
-      if (pr[2] != 0) continue;
-      for (int iv = 0; iv < nvar; iv++)
-        for (int jv = iv; jv < nvar; jv++)
-        {
-          if ((pass == 0) != (iv == jv)) continue;
-          Stat s = stat(pr[0], iv, pr[0], jv);
-          if (judge(s))
-          {
-            ctx.fail((pass == 0 ? "var:" : "xvar:") + tag + varVariant,
-                     fmt("ensemble %s at probe %d (var %d,%d) = %.5g, model %.5g: |diff| = %.1f sigma_MC, allowance %.3g (R=%d)",
-                         pass == 0 ? "variance" : "cross-covariance", pr[0], iv, jv, s.est, s.exp, std::fabs(s.est - s.exp) / s.sd, b * s.scale, R));
-            return;
-          }
-        }
-    }
   // pooled statistic of a class
   auto pooled = [&](int cls, int iv, int jv, Stat& s) {
     std::vector<std::array<int, 3>> L;
@@ -670,51 +655,79 @@ static void runSim(const SimCase& c, Ctx& ctx)
     s.sd = std::sqrt((double)(var / ((LD)K * K * R)));
     return true;
   };
-  // 4. pooled variance / cross-variable covariance over all probe points
-  for (int iv = 0; iv < nvar; iv++)
-    for (int jv = iv; jv < nvar; jv++)
-    {
-      Stat s;
-      if (!pooled(0, iv, jv, s)) continue;
-      if (judge(s))
-      {
-        ctx.fail("pooled-var:" + tag + varVariant,
-                 fmt("%s averaged over the %d probes (var %d,%d) = %.5g, model %.5g: |diff| = %.1f sigma_MC, allowance %.3g (R=%d)",
-                     iv == jv ? "variance" : "cross-covariance", np, iv, jv, s.est, s.exp, std::fabs(s.est - s.exp) / s.sd, b * s.scale, R));
-        return;
-      }
-    }
-  // 5. lag covariances, 6. pooled per lag class
-  for (auto& pr : P.pairs)
+  // Phase 0: every variable on its own (variance, pooled variance, lag covariances, pooled lag covariances);
+  // phase 1: the same between different variables.  A recorded defect of the cross terms therefore does not
+  // hide the per-variable statistics of a multivariate case.
+  for (int phase = 0; phase < (nvar > 1 ? 2 : 1); phase++)
   {
-    if (pr[2] == 0) continue;
-    for (int iv = 0; iv < nvar; iv++)
-      for (int jv = 0; jv < nvar; jv++)
-      {
-        Stat s = stat(pr[0], iv, pr[1], jv);
-        if (judge(s))
+    const std::string x = phase ? "x" : "";
+    auto wanted = [&](int iv, int jv) { return phase == 0 ? iv == jv : iv != jv; };
+    // variance at each probe
+    for (auto& pr : P.pairs)
+    {
+      if (pr[2] != 0) continue;
+      for (int iv = 0; iv < nvar; iv++)
+        for (int jv = iv; jv < nvar; jv++)
         {
-          ctx.fail("cov:" + tag + ":" + isoTag + varVariant,
-                   fmt("ensemble covariance between probes %d and %d (lag class %d, var %d,%d) = %.5g, model %.5g: |diff| = %.1f sigma_MC, allowance %.3g (R=%d)",
-                       pr[0], pr[1], pr[2], iv, jv, s.est, s.exp, std::fabs(s.est - s.exp) / s.sd, b * s.scale, R));
-          return;
+          if (!wanted(iv, jv)) continue;
+          Stat s = stat(pr[0], iv, pr[0], jv);
+          if (judge(s))
+          {
+            ctx.fail(x + "var:" + tag + varVariant,
+                     fmt("ensemble %s at probe %d (var %d,%d) = %.5g, model %.5g: |diff| = %.1f sigma_MC, allowance %.3g (R=%d)",
+                         phase == 0 ? "variance" : "cross-covariance", pr[0], iv, jv, s.est, s.exp, std::fabs(s.est - s.exp) / s.sd, b * s.scale, R));
+            return;
+          }
         }
-      }
-  }
-  for (int cls = 1; cls < P.nclass; cls++)
+    }
+    // variance averaged over all probe points
     for (int iv = 0; iv < nvar; iv++)
-      for (int jv = 0; jv < nvar; jv++)
+      for (int jv = iv; jv < nvar; jv++)
       {
         Stat s;
-        if (!pooled(cls, iv, jv, s)) continue;
+        if (!wanted(iv, jv) || !pooled(0, iv, jv, s)) continue;
         if (judge(s))
         {
-          ctx.fail("pooled-cov:" + tag + ":" + isoTag + varVariant,
-                   fmt("covariance of lag class %d averaged over the anchors (var %d,%d) = %.5g, model %.5g: |diff| = %.1f sigma_MC, allowance %.3g (R=%d)",
-                       cls, iv, jv, s.est, s.exp, std::fabs(s.est - s.exp) / s.sd, b * s.scale, R));
+          ctx.fail("pooled-" + x + "var:" + tag + varVariant,
+                   fmt("%s averaged over the %d probes (var %d,%d) = %.5g, model %.5g: |diff| = %.1f sigma_MC, allowance %.3g (R=%d)",
+                       iv == jv ? "variance" : "cross-covariance", np, iv, jv, s.est, s.exp, std::fabs(s.est - s.exp) / s.sd, b * s.scale, R));
           return;
         }
       }
+    // lag covariances
+    for (auto& pr : P.pairs)
+    {
+      if (pr[2] == 0) continue;
+      for (int iv = 0; iv < nvar; iv++)
+        for (int jv = 0; jv < nvar; jv++)
+        {
+          if (!wanted(iv, jv)) continue;
+          Stat s = stat(pr[0], iv, pr[1], jv);
+          if (judge(s))
+          {
+            ctx.fail(x + "cov:" + tag + ":" + isoTag + varVariant,
+                     fmt("ensemble covariance between probes %d and %d (lag class %d, var %d,%d) = %.5g, model %.5g: |diff| = %.1f sigma_MC, allowance %.3g (R=%d)",
+                         pr[0], pr[1], pr[2], iv, jv, s.est, s.exp, std::fabs(s.est - s.exp) / s.sd, b * s.scale, R));
+            return;
+          }
+        }
+    }
+    // lag covariances averaged over the anchors
+    for (int cls = 1; cls < P.nclass; cls++)
+      for (int iv = 0; iv < nvar; iv++)
+        for (int jv = 0; jv < nvar; jv++)
+        {
+          Stat s;
+          if (!wanted(iv, jv) || !pooled(cls, iv, jv, s)) continue;
+          if (judge(s))
+          {
+            ctx.fail("pooled-" + x + "cov:" + tag + ":" + isoTag + varVariant,
+                     fmt("covariance of lag class %d averaged over the anchors (var %d,%d) = %.5g, model %.5g: |diff| = %.1f sigma_MC, allowance %.3g (R=%d)",
+                         cls, iv, jv, s.est, s.exp, std::fabs(s.est - s.exp) / s.sd, b * s.scale, R));
+            return;
+          }
+        }
+  }
   ctx.label(fmt("maxz:%d", std::min(9, (int)std::floor(maxz))));
   if (neededB) ctx.label("passed-thanks-to-allowance");
   ctx.nontrivial(c.anisotropic() || nvar > 1 || c.nstruct() >= 2);
@@ -810,22 +823,405 @@ static SimCase genSpde()
   int ns = (c.opt && G::pct(35)) ? 2 : 1;
   for (int k = 0; k < ns; k++)
   {
-    Struc s = genStruc(2, 1, k == 0 ? r1 : r1 * G::u(0.5, 1.), {T_MATERN}, aniso);
+    Struc s = genStruc(2, 1, k == 0 ? r1 : r1 * G::u(0.6, 1.), {T_MATERN}, aniso);
     s.param = G::pick<double>({1., 1., 2.});
+    if (aniso) s.ratio[1] = 1. / G::u(3., 3.5); // keeps the mesh (range_i / nb along each axis) below ~4000 vertices
     c.st.push_back(s);
   }
   if (G::pct(25)) c.st.push_back(genNugget(2, 1));
-  c.anchors = genAnchors(2, c.opt ? 5 : 3, (c.opt ? 1.5 : 0.8) * c.rmax(), G::pick<double>({0., 0., 5000.}));
+  c.anchors = genAnchors(2, c.opt ? 4 : 3, (c.opt ? 1.0 : 0.8) * c.rmax(), G::pick<double>({0., 0., 5000.}));
   c.cpr = 3;
-  c.nb = c.opt ? G::i(8, 12) : 8;         // mesh = range / nb  <= range / 8
-  c.border = c.nb + G::i(0, 4);           // mesh border >= 1 range
-  if (c.opt) genEnsemble(c, 250, 4, 16);
-  else genEnsemble(c, 250, 4, 4);
+  c.nb = c.opt ? G::i(8, 10) : 8;         // mesh = range / nb  <= range / 8
+  c.border = c.nb + G::i(0, 3);           // mesh border >= 1 range
+  // one call (meshing and factorisation are paid once), all the realisations through nbsimu
+  c.ncalls = 1;
+  c.nbsimu = c.opt ? 250 * G::sz(4, 16) : 1000;
+  c.seed = G::seed();
   return c;
 }
 VERIF_SUB(tb, SimCase, genTb, runSim);
 VERIF_SUB(fft, SimCase, genFft, runSim);
 VERIF_SUB(spectral, SimCase, genSpectral, runSim);
 VERIF_SUB(spde, SimCase, genSpde, runSim);
+
+// ====================================================================== chol ================
+// MatrixSquareSymmetricSim(m, inverse): sampler x = f(white noise) whose covariance is m (inverse = false: x = L w)
+// or m^-1 (inverse = true, m is a precision: x = L^-T w), L = Cholesky factor (CholeskyDense; CholeskySparse when
+// the matrix is sparse).  The covariance C of a model between n points is given either as C or as Q = C^-1
+// (inverted here with Eigen); the ensemble covariance of R samples must be C.  Exact method: b = 0.
+struct CholCase
+{
+  int n = 4;
+  std::vector<double> xy;
+  std::vector<Struc> st;
+  int inverse = 0, sparse = 0, R = 2000, seed = 1;
+  template<class A> void io(A& a) { a("n", n)("xy", xy)("st", st)("inverse", inverse)("sparse", sparse)("R", R)("seed", seed); }
+};
+static CholCase genChol()
+{
+  CholCase c;
+  c.n = G::i(2, 9);
+  double r1 = G::pick<double>({1., 30.}) * G::u(0.8, 1.25);
+  c.st.push_back(genStruc(2, 1, r1, {T_EXPO, T_SPHE, T_CUBIC, T_GAUSS, T_MATERN}, G::pct(70)));
+  c.st.push_back(genNugget(2, 1)); // keeps the matrix well conditioned (kappa < 1e3)
+  c.xy = genAnchors(2, c.n, 1.5 * r1, 0.);
+  c.inverse = G::b() ? 1 : 0;
+  c.sparse = G::pct(30) ? 1 : 0;
+  c.R = 1000 * G::sz(2, 4);
+  c.seed = G::seed();
+  return c;
+}
+static void runChol(const CholCase& c, Ctx& ctx)
+{
+  resetGlobals(2);
+  const int n = c.n, R = c.R;
+  std::string tag = std::string(c.sparse ? "chol:sparse" : "chol:dense") + (c.inverse ? ":precision" : ":covariance");
+  ctx.label("sim:" + tag);
+  ModelOracle orc(2, 1, c.st);
+  Eigen::MatrixXd C(n, n);
+  for (int i = 0; i < n; i++)
+    for (int j = 0; j < n; j++) C(i, j) = orc.cov(&c.xy[(size_t)(2 * i)], &c.xy[(size_t)(2 * j)], i == j, 0, 0);
+  Eigen::MatrixXd M = c.inverse ? Eigen::MatrixXd(C.inverse()) : C;
+  M = 0.5 * (M + M.transpose());
+  MatrixSquareSymmetric ms(n);
+  for (int i = 0; i < n; i++)
+    for (int j = 0; j <= i; j++) ms.setValue(i, j, M(i, j));
+  std::unique_ptr<MatrixSparse> sp;
+  const AMatrix* mat = &ms;
+  if (c.sparse)
+  {
+    NF_Triplet T;
+    for (int i = 0; i < n; i++)
+      for (int j = 0; j < n; j++) T.add(i, j, M(i, j));
+    sp.reset(MatrixSparse::createFromTriplet(T, n, n));
+    mat = sp.get();
+  }
+  ctx.at("MatrixSquareSymmetricSim");
+  MatrixSquareSymmetricSim sim(mat, c.inverse != 0);
+  if (sim.isEmpty()) { ctx.fail("error:" + tag, "the sampler could not be built from a symmetric positive definite matrix"); return; }
+  law_set_random_seed(c.seed);
+  std::vector<LD> m1((size_t)n, 0.L), m2((size_t)(n * n), 0.L);
+  VectorDouble w((size_t)n), x;
+  for (int r = 0; r < R; r++)
+  {
+    for (int i = 0; i < n; i++) w[(size_t)i] = law_gaussian();
+    ctx.at("evalSimulate");
+    if (sim.evalSimulate(w, x) != 0 || (int)x.size() != n) { ctx.fail("error:" + tag, "evalSimulate failed"); return; }
+    for (int i = 0; i < n; i++)
+    {
+      if (!(std::fabs(x[(size_t)i]) < 1e29)) { ctx.fail("nan:" + tag, "non finite sample"); return; }
+      m1[(size_t)i] += x[(size_t)i];
+      for (int j = 0; j <= i; j++) m2[(size_t)(i * n + j)] += (LD)x[(size_t)i] * x[(size_t)j];
+    }
+  }
+  double maxz = 0;
+  for (int i = 0; i < n; i++)
+  {
+    double sd = std::sqrt(C(i, i) / R), dev = std::fabs((double)(m1[(size_t)i] / R));
+    maxz = std::max(maxz, dev / sd);
+    if (dev > 6. * sd) { ctx.fail("mean:" + tag, fmt("mean of component %d = %.4g = %.1f sigma (R=%d)", i, dev, dev / sd, R)); return; }
+  }
+  for (int i = 0; i < n; i++)
+    for (int j = 0; j <= i; j++)
+    {
+      double est = (double)(m2[(size_t)(i * n + j)] / R);
+      double sd = std::sqrt((C(i, i) * C(j, j) + C(i, j) * C(i, j)) / R), dev = std::fabs(est - C(i, j));
+      maxz = std::max(maxz, dev / sd);
+      if (dev > 6. * sd + 1e-8 * std::sqrt(C(i, i) * C(j, j)))
+      { ctx.fail((i == j ? "var:" : "cov:") + tag, fmt("ensemble covariance (%d,%d) = %.5g, expected %.5g: %.1f sigma_MC (R=%d)", i, j, est, C(i, j), dev / sd, R)); return; }
+    }
+  ctx.label(fmt("maxz:%d", std::min(9, (int)std::floor(maxz))));
+  ctx.nontrivial(n >= 3);
+  ctx.sig = Hash().add(n).add(c.inverse).add(c.sparse).add(c.st[0].type).add(c.seed).h;
+}
+VERIF_SUB(chol, CholCase, genChol, runChol);
+
+// ====================================================================== law =================
+enum { L_UNIFORM = 0, L_GAUSS, L_EXPO, L_GAMMA, L_BETA1, L_BETA2, L_POISSON, L_BINOMIAL, L_GAMMA_BETA, L_NLAWS };
+static const char* lname(int l)
+{
+  static const char* n[] = {"uniform", "gaussian", "exponential", "gamma", "beta1", "beta2", "poisson", "binomial", "gamma-beta"};
+  return n[l];
+}
+struct LawCase
+{
+  int law = 0, style = 1; // style 1 = old (library default), 0 = new (std::mt19937)
+  double p1 = 0., p2 = 1.;
+  int n = 1, N = 100000, seed = 1;
+  template<class A> void io(A& a) { a("law", law)("style", style)("p1", p1)("p2", p2)("n", n)("N", N)("seed", seed); }
+};
+static LawCase genLaw()
+{
+  LawCase c;
+  c.law = G::i(0, L_NLAWS - 1);
+  c.style = G::b() ? 1 : 0;
+  switch (c.law)
+  {
+    case L_UNIFORM: c.p1 = G::r(-20, 20, 4); c.p2 = G::pick<double>({0.5, 1., 7.25, 1000.}); break;     // [p1, p1 + p2]
+    case L_GAUSS: c.p1 = G::r(-20, 20, 4); c.p2 = G::pick<double>({0.1, 1., 3.5, 100.}); break;          // mean, sigma
+    case L_EXPO: c.p1 = G::pick<double>({0.05, 0.5, 1., 4., 60.}); break;                                // lambda
+    case L_GAMMA: c.p1 = G::pick<double>({0.3, 0.7, 1., 1.5, 2.5, 9., 40.}); c.p2 = 1.; break;           // alpha
+    case L_GAMMA_BETA: c.p1 = G::pick<double>({0.7, 1., 2.5, 9.}); c.p2 = G::pick<double>({0.25, 2., 5.}); break;
+    case L_BETA1: c.p1 = G::pick<double>({0.5, 1., 2., 6.}); c.p2 = G::pick<double>({0.5, 1., 3., 8.}); break;
+    case L_BETA2: c.p1 = G::pick<double>({0.5, 1., 2., 6.}); c.p2 = G::pick<double>({3.5, 6., 20., 40.}); break;
+    case L_POISSON: c.p1 = G::pick<double>({0.2, 1., 4.5, 15.9, 16., 33., 120.}); break;                  // old style: two regimes around 16
+    default: c.n = G::pick<int>({1, 5, 40, 200, 1000}); c.p1 = G::pick<double>({0.02, 0.1, 0.3, 0.5, 0.8, 0.97}); break; // BINV below n p = 30, BTPE above
+  }
+  c.N = 100000;
+  c.seed = G::seed();
+  return c;
+}
+
+// description of a law for the oracle: central moments mu[0..16] (NaN when not finite), cdf, cdf just below x, support
+struct LawRef
+{
+  LD mean = 0;
+  std::vector<LD> mu;                         // central moments
+  std::function<double(double)> cdf, cdfm;    // F(x), F(x-)
+  std::function<bool(double)> inside;
+};
+static const LD kNaN = std::numeric_limits<LD>::quiet_NaN();
+// central moments from cumulants k[1..16] (k[1] ignored): m_n = sum_{j=2..n} C(n-1, j-1) k_j m_{n-j}
+static std::vector<LD> centralFromCumulants(const std::vector<LD>& k)
+{
+  std::vector<LD> m(17, 0.L);
+  m[0] = 1;
+  m[1] = 0;
+  for (int n = 2; n <= 16; n++)
+  {
+    LD s = 0, binom = 1; // C(n-1, j-1), j = 1 -> 1
+    for (int j = 1; j <= n; j++)
+    {
+      if (j >= 2) s += binom * k[(size_t)j] * m[(size_t)(n - j)];
+      binom = binom * (LD)(n - j) / (LD)j; // C(n-1, j)
+    }
+    m[(size_t)n] = s;
+  }
+  return m;
+}
+// central moments from raw moments r[0..16] about 0
+static std::vector<LD> centralFromRaw(const std::vector<LD>& r)
+{
+  std::vector<LD> m(17, 0.L);
+  LD mean = r[1];
+  for (int n = 0; n <= 16; n++)
+  {
+    if (std::isnan((double)r[(size_t)n])) { m[(size_t)n] = kNaN; continue; }
+    LD s = 0, binom = 1, pw = 1; // sum_j C(n,j) r_{n-j} (-mean)^j
+    for (int j = 0; j <= n; j++)
+    {
+      s += binom * r[(size_t)(n - j)] * pw;
+      binom = binom * (LD)(n - j) / (LD)(j + 1);
+      pw *= -mean;
+    }
+    m[(size_t)n] = s;
+  }
+  return m;
+}
+static LawRef lawGamma(double alpha, double scale)
+{
+  LawRef L;
+  L.mean = (LD)alpha * scale;
+  std::vector<LD> k(17, 0.L);
+  LD f = 1, sc = scale; // k_n = alpha (n-1)! scale^n
+  for (int n = 1; n <= 16; n++) { k[(size_t)n] = (LD)alpha * f * sc; f *= n; sc *= scale; }
+  L.mu = centralFromCumulants(k);
+  L.cdf = L.cdfm = [=](double x) { return x <= 0 ? 0. : boost::math::gamma_p(alpha, x / scale); };
+  L.inside = [](double x) { return x >= 0 && x < 1e29; };
+  return L;
+}
+static LawRef lawRef(const LawCase& c, int convention /* gamma-beta: 0 scale, 1 rate */)
+{
+  LawRef L;
+  L.mu.assign(17, 0.L);
+  switch (c.law)
+  {
+    case L_UNIFORM:
+    {
+      double a = c.p1, w = c.p2;
+      L.mean = a + 0.5 * w;
+      for (int k = 0; k <= 16; k++) L.mu[(size_t)k] = (k % 2) ? 0.L : powl(0.5L * w, k) / (k + 1);
+      L.cdf = L.cdfm = [=](double x) { return std::min(1., std::max(0., (x - a) / w)); };
+      L.inside = [=](double x) { return x >= a && x <= a + w; };
+      break;
+    }
+    case L_GAUSS:
+    {
+      double m = c.p1, sd = c.p2;
+      L.mean = m;
+      LD df = 1; // (k-1)!!
+      L.mu[0] = 1;
+      for (int k = 2; k <= 16; k += 2) { df *= (k - 1); L.mu[(size_t)k] = df * powl(sd, k); }
+      L.cdf = L.cdfm = [=](double x) { return 0.5 * std::erfc(-(x - m) / (sd * std::sqrt(2.))); };
+      L.inside = [](double x) { return std::fabs(x) < 1e29; };
+      break;
+    }
+    case L_EXPO: L = lawGamma(1., 1. / c.p1); break;
+    case L_GAMMA: L = lawGamma(c.p1, 1.); break;
+    case L_GAMMA_BETA: L = lawGamma(c.p1, convention == 0 ? c.p2 : 1. / c.p2); break;
+    case L_BETA1:
+    {
+      double a = c.p1, b = c.p2;
+      std::vector<LD> r(17, 1.L);
+      for (int k = 1; k <= 16; k++) r[(size_t)k] = r[(size_t)(k - 1)] * ((LD)a + k - 1) / ((LD)a + b + k - 1);
+      L.mean = r[1];
+      L.mu = centralFromRaw(r);
+      L.cdf = L.cdfm = [=](double x) { return x <= 0 ? 0. : (x >= 1 ? 1. : boost::math::ibeta(a, b, x)); };
+      L.inside = [](double x) { return x >= 0 && x <= 1; };
+      break;
+    }
+    case L_BETA2: // a/b ratio of gammas (beta prime): raw moment k exists for k < b
+    {
+      double a = c.p1, b = c.p2;
+      std::vector<LD> r(17, 1.L);
+      for (int k = 1; k <= 16; k++) r[(size_t)k] = ((LD)b - k > 0.25L) ? r[(size_t)(k - 1)] * ((LD)a + k - 1) / ((LD)b - k) : kNaN;
+      L.mean = r[1];
+      L.mu = centralFromRaw(r);
+      L.cdf = L.cdfm = [=](double x) { return x <= 0 ? 0. : boost::math::ibeta(a, b, x / (1. + x)); };
+      L.inside = [](double x) { return x >= 0 && x < 1e29; };
+      break;
+    }
+    case L_POISSON:
+    {
+      double lam = c.p1;
+      std::vector<LD> k(17, (LD)lam);
+      L.mean = lam;
+      L.mu = centralFromCumulants(k);
+      L.cdf = [=](double x) { return x < 0 ? 0. : boost::math::gamma_q(std::floor(x) + 1., lam); };
+      L.cdfm = [=](double x) { double y = std::ceil(x) - 1.; return y < 0 ? 0. : boost::math::gamma_q(y + 1., lam); };
+      L.inside = [](double x) { return x >= 0 && x == std::floor(x) && x < 2e9; };
+      break;
+    }
+    default: // binomial: moments by summation of the probability mass function
+    {
+      int n = c.n;
+      double p = c.p1;
+      L.mean = (LD)n * p;
+      std::vector<LD> pm((size_t)(n + 1));
+      for (int k = 0; k <= n; k++)
+        pm[(size_t)k] = expl(lgammal(n + 1.L) - lgammal(k + 1.L) - lgammal(n - k + 1.L) + k * logl((LD)p) + (n - k) * log1pl(-(LD)p));
+      for (int q = 0; q <= 16; q++)
+      {
+        LD s = 0;
+        for (int k = 0; k <= n; k++) s += pm[(size_t)k] * powl((LD)k - L.mean, q);
+        L.mu[(size_t)q] = s;
+      }
+      auto F = [=](double y) { return y < 0 ? 0. : (y >= n ? 1. : boost::math::ibetac(y + 1., n - y, p)); };
+      L.cdf = [=](double x) { return F(std::floor(x)); };
+      L.cdfm = [=](double x) { return F(std::ceil(x) - 1.); };
+      L.inside = [=](double x) { return x >= 0 && x <= n && x == std::floor(x); };
+      break;
+    }
+  }
+  return L;
+}
+static double drawLaw(const LawCase& c)
+{
+  switch (c.law)
+  {
+    case L_UNIFORM: return law_uniform(c.p1, c.p1 + c.p2);
+    case L_GAUSS: return law_gaussian(c.p1, c.p2);
+    case L_EXPO: return law_exponential(c.p1);
+    case L_GAMMA: return law_gamma(c.p1);
+    case L_GAMMA_BETA: return law_gamma(c.p1, c.p2);
+    case L_BETA1: return law_beta1(c.p1, c.p2);
+    case L_BETA2: return law_beta2(c.p1, c.p2);
+    case L_POISSON: return (double)law_poisson(c.p1);
+    default: return (double)law_binomial(c.n, c.p1);
+  }
+}
+// Thresholds.  KS: Dvoretzky-Kiefer-Wolfowitz, P(sup|Fn - F| > e) <= 2 exp(-2 N e^2) = 1e-6.
+// Moment of order k: T = mean((X - mu)^k), E T = mu_k, Var T = (mu_2k - mu_k^2)/N =: s^2.  T is a mean of N
+// independent copies of Y = (X - mu)^k, whose skewness g and excess kurtosis q follow from mu_3k, mu_4k; the
+// Cornish-Fisher quantile  z + (g/6 sqrt N)(z^2-1) + (q/24 N)(z^3-3z) - (g^2/36 N)(2z^3-5z)  at z = +-5 (5.7e-7 under
+// normality) gives the threshold, never less than 6 s.  When the expansion is not trustworthy (|g|/sqrt N > 0.5 or
+// q/N > 1) or the moments needed do not exist, this order is not asserted (label moment-skipped).
+static bool momentThreshold(const LawRef& L, int k, int N, double& expect, double& thr, double& sd)
+{
+  for (int j : {k, 2 * k, 3 * k, 4 * k})
+    if (!std::isfinite((double)L.mu[(size_t)j])) return false;
+  LD e = L.mu[(size_t)k], m2 = L.mu[(size_t)(2 * k)], m3 = L.mu[(size_t)(3 * k)], m4 = L.mu[(size_t)(4 * k)];
+  LD v = m2 - e * e;
+  if (!(v > 0)) return false;
+  LD c3 = m3 - 3 * e * m2 + 2 * e * e * e;
+  LD c4 = m4 - 4 * e * m3 + 6 * e * e * m2 - 3 * e * e * e * e;
+  double g = (double)(c3 / powl(v, 1.5L)) / std::sqrt((double)N);
+  double q = (double)(c4 / (v * v) - 3.L) / N;
+  if (std::fabs(g) > 0.5 || q > 1.) return false;
+  auto cf = [&](double z) { return z + g / 6. * (z * z - 1.) + q / 24. * (z * z * z - 3. * z) - g * g / 36. * (2. * z * z * z - 5. * z); };
+  double z = std::max(6., std::max(std::fabs(cf(5.)), std::fabs(cf(-5.))));
+  expect = (double)e;
+  sd = std::sqrt((double)v / N);
+  thr = z * sd;
+  return true;
+}
+// battery under one reference law; returns "" or the first failure (key suffix | message)
+static std::string lawBattery(const LawCase& c, const LawRef& L, const std::vector<double>& xs, Ctx* ctx, double& maxz)
+{
+  const int N = (int)xs.size();
+  for (int i = 0; i < N; i++)
+    if (!L.inside(xs[(size_t)i])) return "support|" + fmt("draw %d = %.17g lies outside the support of the law", i, xs[(size_t)i]);
+  for (int k = 1; k <= 4; k++)
+  {
+    double expect, thr, sd;
+    if (!momentThreshold(L, k, N, expect, thr, sd)) { if (ctx) ctx->label(fmt("moment-skipped:%d", k)); continue; }
+    LD s = 0;
+    for (double x : xs) s += powl((LD)x - L.mean, k);
+    double est = (double)(s / N), dev = std::fabs(est - expect);
+    maxz = std::max(maxz, dev / sd);
+    if (dev > thr)
+      return fmt("moment%d|", k) + fmt("central moment of order %d = %.8g, law %.8g: |diff| = %.1f sigma (threshold %.1f sigma, N=%d)", k, est, expect, dev / sd, thr / sd, N);
+  }
+  std::vector<double> v = xs;
+  std::sort(v.begin(), v.end());
+  double D = 0;
+  for (int i = 0; i < N;)
+  {
+    int j = i;
+    while (j < N && v[(size_t)j] == v[(size_t)i]) j++;
+    D = std::max(D, std::fabs((double)j / N - L.cdf(v[(size_t)i])));
+    D = std::max(D, std::fabs((double)i / N - L.cdfm(v[(size_t)i])));
+    i = j;
+  }
+  double eps = std::sqrt(std::log(2. / 1e-6) / (2. * N));
+  maxz = std::max(maxz, 6. * D / eps); // on the same scale: 6 = at the threshold
+  if (D > eps) return "ks|" + fmt("Kolmogorov-Smirnov distance %.5f > %.5f (DKW bound at 1e-6, N=%d)", D, eps, N);
+  return "";
+}
+static void runLaw(const LawCase& c, Ctx& ctx)
+{
+  resetGlobals(2);
+  std::string tag = std::string(lname(c.law)) + (c.style ? ":old" : ":new");
+  ctx.label("law:" + tag);
+  law_set_old_style(c.style != 0);
+  law_set_random_seed(c.seed);
+  ctx.at("law_" + std::string(lname(c.law)));
+  std::vector<double> xs((size_t)c.N);
+  for (int i = 0; i < c.N; i++) xs[(size_t)i] = drawLaw(c);
+  law_set_old_style(true);
+  double maxz = 0;
+  std::string f;
+  if (c.law == L_GAMMA_BETA)
+  {
+    // the documentation calls beta "the second parameter": scale and rate readings are both accepted
+    double z0 = 0, z1 = 0;
+    std::string f0 = lawBattery(c, lawRef(c, 0), xs, nullptr, z0);
+    std::string f1 = f0.empty() ? "" : lawBattery(c, lawRef(c, 1), xs, nullptr, z1);
+    if (!f0.empty() && !f1.empty()) f = f0 + " [as a scale; as a rate: " + f1.substr(f1.find('|') + 1) + "]";
+    maxz = f0.empty() ? z0 : z1;
+  }
+  else
+    f = lawBattery(c, lawRef(c, 0), xs, &ctx, maxz);
+  if (!f.empty())
+  {
+    size_t bar = f.find('|');
+    ctx.fail(f.substr(0, bar) + ":" + tag, f.substr(bar + 1));
+    return;
+  }
+  ctx.label(fmt("maxz:%d", std::min(9, (int)std::floor(maxz))));
+  ctx.nontrivial(true);
+  ctx.sig = Hash().add(c.law).add(c.style).addq(c.p1).addq(c.p2).add(c.n).add(c.seed).h;
+}
+VERIF_SUB(law, LawCase, genLaw, runLaw);
 
 VERIF_MAIN()
